@@ -1169,6 +1169,12 @@ class FuncLowerer:
     def e_UnaryOperator(self, e):
         op = e['opcode']
         sub = e['inner'][0]
+        if op == '&' and sub.get('kind') == 'DeclRefExpr' and sub['referencedDecl'].get('kind') == 'CXXMethodDecl':
+            # &Class::method : pointer to member function, an opaque two-word value whose first word names the lowered function
+            decl = self.ix.byid.get(sub['referencedDecl']['id'])
+            if decl is None:
+                abort('pointer to a member function outside the babylon AST', e)
+            return '((struct vf_memfnptr){ (void *)%s, 0 })' % self.callee_name(decl, e)
         x = self.expr(sub)
         if op == '&':
             return addr_of(x)
